@@ -1,6 +1,7 @@
 //! Arithmetic API operations on Date / Time / DateTime (C02–C10, C15): one generic dispatcher.
 use crate::c01::{date_days, dt_parts, ts_of_day, ERR_SENTINEL};
 use crate::common::*;
+use crate::gens::{NPD, NPS};
 use astrolabe::{Date, DateTime, DateUtilities, Offset, OffsetUtilities, Time, TimeUtilities};
 use std::time::Duration;
 
@@ -59,6 +60,7 @@ fn dur(secs: i128, ns: i128) -> Duration {
 
 pub fn run(inp: &Input) -> Option<Obs> {
     let i = inp.ints.clone();
+    let inp_strs = inp.strs.clone();
     let op = inp.op.clone();
     let known = [
         "dt_from_ts", "date_from_ts", "dt_cmp", "date_cmp", "time_cmp", "dt_add", "dt_sub", "dt_add_dur", "dt_sub_dur",
@@ -87,6 +89,15 @@ pub fn run(inp: &Input) -> Option<Obs> {
         }
         "dt_cmp" => {
             let (a, b) = match (mk_dt(i[0], i[1], i[2]), mk_dt(i[3], i[4], i[5])) { (Some(a), Some(b)) => (a, b), _ => return UNCONSTRUCTIBLE };
+            // "sum:<nanos>": the left operand is not built directly but obtained as (value - t) + Time(t) / + Duration(t), i.e. it is
+            // the same instant reached through the public operators (the order must not depend on how a value was obtained)
+            let a = match inp_strs.first().and_then(|x| x.strip_prefix("sum:")).and_then(|x| x.parse::<i128>().ok()) {
+                Some(t) => {
+                    let tot = i[0] * NPD + i[1] - t;
+                    let base = match mk_dt(tot.div_euclid(NPD), tot.rem_euclid(NPD), i[2]) { Some(v) => v, None => return UNCONSTRUCTIBLE };
+                    if t < NPD && t % 2 == 0 { base + Time::from_nanos(t as u64).unwrap() } else { base + Duration::new((t / NPS) as u64, (t % NPS) as u32) }
+                }
+                None => a };
             Obs::Ok(vec![ord(a.cmp(&b)), (a == b) as i128, (a < b) as i128, (a >= b) as i128], vec![])
         }
         "date_cmp" => {
